@@ -73,6 +73,7 @@ struct GOp
 struct GCase
 {
     bool             big{false};
+    bool             huge{false};
     int              kind{0};
     bool             sync{false};
     int              types{0};
@@ -94,10 +95,12 @@ const int   kRatioD[] = {2, 1, 8, 4, 4, 1};
 std::string to_text(const GCase& c)
 {
     std::ostringstream s;
-    const bool         big = c.big && (c.kind == 8 || c.kind == 9); // large universes only for the unbounded containers
-    int                uni = big ? 70 + (c.seed % 230) : c.cap + c.extra;
+    const bool         utx  = c.kind == 8 || c.kind == 9;
+    const bool         huge = c.huge && utx;                 // populations above 1024 (slice / chunk sizes of that order)
+    const bool         big  = (c.big && utx) || huge;        // large universes only for the unbounded containers
+    int                uni  = huge ? 1100 + (c.seed % 1200) : big ? 70 + (c.seed % 230) : c.cap + c.extra;
     const bool         branchy = c.kind == 3 || c.kind == 4 || c.kind == 5; // lfu ties / rr: the model enumerates victims, long ranges explode
-    const size_t       lim = big ? 320 : (c.cap >= 16 && !branchy ? 128 : 8); // long ranges only where they can matter
+    const size_t       lim = huge ? 2400 : big ? 320 : (c.cap >= 16 && !branchy ? 128 : 8); // long ranges only where they can matter
     s << "kind " << kKindName[c.kind] << "\nsync " << (c.sync ? 1 : 0) << "\ntypes " << c.types << "\ncap " << c.cap << "\nuni " << uni << "\nmlf "
       << kMlf[c.mlf_idx] << "\nttl " << c.ttl << "\ntick " << c.tick << "\nratio " << kRatioN[c.ratio_idx] << " " << kRatioD[c.ratio_idx] << "\nseed "
       << c.seed << "\n";
@@ -154,6 +157,7 @@ struct Profile
     int              w_scan2{30};   // percent of explicit scans that also probe expired keys
     int              splice_pct{0}; // twin-noop: percent of ops generated as spliced no-effect candidates
     bool             long_ticks{false};
+    int              huge_pct{0};   // permille of cases with a key universe above 1024 (ut_map / ut_set only)
     int              big_pct{0};    // percent of cases with a large key universe and bulk range calls (unbounded containers)
 };
 
@@ -172,7 +176,8 @@ Profile make_profile(const std::string& name)
     p.caps = {{12, 1}, {20, 2}, {20, 3}, {14, 4}, {6, 5}, {4, 6}, {3, 7}, {3, 8}, {1, 16}, {1, 17}, {1, 33}, {1, 64}, {1, 100}};
     if (name == "general")
     {
-        p.big_pct = 6;
+        p.big_pct  = 6;
+        p.huge_pct = 3;
         return p;
     }
     if (name == "ttl") // C04 C05 C16 C17
@@ -197,8 +202,9 @@ Profile make_profile(const std::string& name)
         p.kinds = {6, 7, 8, 9};
         int w[] = {40, 4, 3, 1, 3, 0, 1, 1, 12, 0, 6, 0, 8, 20, 1, 0};
         std::memcpy(p.w, w, sizeof w);
-        p.w_scan2 = 0;
-        p.big_pct = 8;
+        p.w_scan2  = 0;
+        p.big_pct  = 8;
+        p.huge_pct = 4;
         return p;
     }
     if (name == "recency") // C10 C13
@@ -279,6 +285,8 @@ Profile make_profile(const std::string& name)
         p.kinds = {7, 8};
         int w[] = {36, 5, 8, 2, 10, 0, 3, 2, 3, 0, 4, 6, 7, 8, 2, 0};
         std::memcpy(p.w, w, sizeof w);
+        p.big_pct  = 6;
+        p.huge_pct = 15;
         return p;
     }
     return p;
@@ -309,12 +317,15 @@ rc::Gen<GOp> gen_op(const Profile& p)
     auto small = rc::gen::resize(8, rc::gen::container<std::vector<GElem>>(elem));
     // long ranges are expanded arithmetically from three generated numbers (generating 300 elements one by one for a
     // sixth of all operations dominated the run time); they are cut to 8 elements when printed unless the case is "big"
-    auto bulk = rc::gen::map(rc::gen::tuple(uni_int(9, 300), uni_int(0, 319), uni_int(1, 7), ttl), [](const std::tuple<int, int, int, long long>& t) {
-        std::vector<GElem> v;
-        for (int i = 0; i < std::get<0>(t); ++i)
-            v.push_back(GElem{(std::get<1>(t) + i * std::get<2>(t)) % 320, std::get<3>(t)});
-        return v;
-    });
+    auto bulk = rc::gen::map(rc::gen::tuple(weighted<int>({{3, 0}, {1, 1}}), uni_int(9, 300), uni_int(0, 2399), uni_int(1, 7), ttl),
+                             [](const std::tuple<int, int, int, int, long long>& t) {
+                                 std::vector<GElem> v;
+                                 // one in four long ranges is very long (1030-2300 elements; only printed in full for "huge" cases)
+                                 const int n = std::get<0>(t) ? 1030 + (std::get<1>(t) * 1270) / 300 : std::get<1>(t);
+                                 for (int i = 0; i < n; ++i)
+                                     v.push_back(GElem{(std::get<2>(t) + i * std::get<3>(t)) % 2400, std::get<4>(t)});
+                                 return v;
+                             });
     auto elems = rc::gen::oneOf(small, small, small, small, small, bulk);
     std::vector<std::pair<std::size_t, long long>> dts = {{2, 0},        {2, 1},        {3, 999999},    {6, 1000000},  {3, 1000001}, {6, 2000000},
                                                           {6, 3000000},  {3, 2999999},  {6, 5000000},   {2, 4999999},  {2, 5000001}, {3, 8000000},
@@ -322,7 +333,7 @@ rc::Gen<GOp> gen_op(const Profile& p)
     return rc::gen::build<GOp>(
         rc::gen::set(&GOp::code, weighted<int>(codes)),
         rc::gen::set(&GOp::splice, rc::gen::map(uni_int(0, 99), [pct = p.splice_pct](int v) { return v < pct; })),
-        rc::gen::set(&GOp::k, uni_int(0, 319)),
+        rc::gen::set(&GOp::k, uni_int(0, 2399)),
         rc::gen::set(&GOp::allow, weighted<int>({{6, 3}, {2, 1}, {2, 2}})),
         rc::gen::set(&GOp::ttl, ttl),
         rc::gen::set(&GOp::peek, rc::gen::map(uni_int(0, 99), [pct = p.w_peek](int v) { return v < pct; })),
@@ -347,6 +358,7 @@ rc::Gen<GCase> gen_case(const Profile& p, const std::vector<int>& kinds)
     return rc::gen::build<GCase>(
         rc::gen::set(&GCase::kind, rc::gen::elementOf(kinds)),
         rc::gen::set(&GCase::big, rc::gen::map(uni_int(0, 99), [pct = p.big_pct](int v) { return v < pct; })),
+        rc::gen::set(&GCase::huge, rc::gen::map(uni_int(0, 999), [pm = p.huge_pct](int v) { return v < pm; })),
         rc::gen::set(&GCase::sync, rc::gen::map(uni_int(0, 3), [](int v) { return v == 0; })),
         rc::gen::set(&GCase::types, weighted<int>({{5, 0}, {2, 1}, {2, 2}})),
         rc::gen::set(&GCase::cap, weighted<int>(p.caps)),
